@@ -2,7 +2,7 @@
 import inspect
 
 from vlib.harness import Harness
-from vlib.symx import Violation, assume, pick, reached
+from vlib.symx import Violation, assume, native, pick, reached
 
 CO_VARARGS, CO_VARKEYWORDS = 4, 8
 POOL = tuple('n%d' % i for i in range(12))
@@ -186,7 +186,7 @@ def make_e_exec(params, part, nparts):
         assume(c_po <= c_nreq + c_nopt)
         case = (c_po, c_nreq, c_nopt, pick(va, 2), pick(nkwreq, MAXKW + 1),
                 pick(nkwopt, MAXKW + 1), pick(kw, 2), c_mode)
-        run_exec_case(case)
+        native(run_exec_case, case)
     return h
 
 
